@@ -99,7 +99,7 @@ Definition rewind (es : list entry) (ver : N) (seek : bool) (lk : bytes) (s : is
   else rewind_linear (length es) es ver lk s buf.
 
 (* advanceToNextKey: the for-loop; returns the emitted (key, value) if any and the state *)
-Fixpoint advance (fuel : nat) (es : list entry) (ver : N) (reverse seek : bool) (s : istate)
+Fixpoint advance (fuel : nat) (es : list entry) (ver : N) (prefix : bytes) (reverse seek : bool) (s : istate)
   : option (bytes * bytes) * istate :=
   match fuel with
   | O => (None, s)
@@ -110,13 +110,15 @@ Fixpoint advance (fuel : nat) (es : list entry) (ver : N) (reverse seek : bool) 
       match nth_error es i with
       | None => (None, s)
       | Some e =>
-        if negb (e_ver e <=? ver) then advance f es ver reverse seek (step es reverse seek s)
+        if negb (e_ver e <=? ver) then advance f es ver prefix reverse seek (step es reverse seek s)
+        (* the bounds are on the raw key: a user key matching the prefix only through its version suffix is skipped *)
+        else if negb (prefixb prefix (e_key e)) then advance f es ver prefix reverse seek (step es reverse seek s)
         else if (match it_last s with Some lk => bytes_eqb (e_key e) lk | None => false end)
-        then advance f es ver reverse seek (step es reverse seek s)
+        then advance f es ver prefix reverse seek (step es reverse seek s)
         else
           let s1 := mkIt (it_pos s) (Some (e_key e)) (it_snp s) in
           let '(s2, buf) := if reverse then rewind es ver seek (e_key e) s1 (e_dead e, e_val e) else (s1, (e_dead e, e_val e)) in
-          if fst buf then advance f es ver reverse seek (step es reverse seek s2)
+          if fst buf then advance f es ver prefix reverse seek (step es reverse seek s2)
           else (Some (e_key e, snd buf), s2)
       end
     end
@@ -126,19 +128,19 @@ Definition first_pos (es : list entry) (prefix : bytes) (reverse : bool) : optio
   if reverse then seek_lt es (prefix_end prefix) else seek_ge es prefix.
 
 (* the loop  for ; it.Valid(); it.Next() { emit }  *)
-Fixpoint drain (n : nat) (fuel : nat) (es : list entry) (ver : N) (reverse seek : bool) (s : istate) : list (bytes * bytes) :=
+Fixpoint drain (n : nat) (fuel : nat) (es : list entry) (ver : N) (prefix : bytes) (reverse seek : bool) (s : istate) : list (bytes * bytes) :=
   match n with
   | O => []
   | S n' =>
-    match advance fuel es ver reverse seek s with
+    match advance fuel es ver prefix reverse seek s with
     | (None, _) => []
-    | (Some kv, s') => kv :: drain n' fuel es ver reverse seek s'
+    | (Some kv, s') => kv :: drain n' fuel es ver prefix reverse seek s'
     end
   end.
 Definition viter (db : list entry) (ver : N) (prefix : bytes) (reverse seek : bool) : list (bytes * bytes) :=
   let es := bounded prefix db in
   let fuel := (4 * length es + 8)%nat in
-  drain (S (length es)) fuel es ver reverse seek (mkIt (first_pos es prefix reverse) None false).
+  drain (S (length es)) fuel es ver prefix reverse seek (mkIt (first_pos es prefix reverse) None false).
 
 (* ---- the specification: a simple versioned map *)
 (* the entry visible for key k at version ver: the one with the greatest version <= ver *)
